@@ -205,6 +205,25 @@ class LocalFlow:
                 res |= {p + ('' if not suffix else '{%s}' % suffix) for p in sub}
         return res
 
+    def inline(self, expr, depth=6):
+        """A copy of expr in which every local name with exactly one plain definition (`x = <rhs>`, not a loop target, not
+        updated in place) is replaced by that definition, repeatedly: `pt = f(a); return pt.th` reads `f(a).th`."""
+        import copy
+
+        flow = self
+
+        class T(ast.NodeTransformer):
+            def __init__(self, d):
+                self.d = d
+
+            def visit_Name(self, node):
+                if isinstance(node.ctx, ast.Load) and flow.is_local(node.id) and self.d > 0:
+                    ds = flow.defs.get(node.id, [])
+                    if len(ds) == 1 and ds[0][0] == 'value':
+                        return T(self.d - 1).visit(copy.deepcopy(ds[0][1]))
+                return node
+        return T(depth).visit(copy.deepcopy(expr))
+
     def names_closure(self, expr):
         """Names occurring in expr plus, transitively, the names occurring in the definitions of
         the local names among them (which locals/parameters flow into expr)."""
@@ -233,6 +252,16 @@ class LocalFlow:
             if b in self.params:
                 res.add(b)
         return res
+
+
+def denotes(flow, expr, path):
+    """expr is the access path `path`, written directly or through local names that have exactly that one definition"""
+    if not isinstance(expr, (ast.Name, ast.Attribute, ast.Subscript)):
+        return False
+    try:
+        return flow.resolve(expr) == {path}
+    except RecursionError:      # pragma: no cover
+        return False
 
 
 def path_base(p):
